@@ -83,73 +83,143 @@ def translate_impl(provs, roots, side, path):
 
 
 # ------------------------------------------------------------------ laws on the real code
+# Each law below mirrors one theorem of coq/theories/PropC13.v (same name after "C13_"), with the same
+# hypotheses as guards.  They are evaluated on the real helpers: that is the search for a failing input.
+LAW_HITS = {}     # law -> number of inputs on which its hypotheses held (so the conclusion was evaluated)
+
+
+def hit(law):
+    LAW_HITS[law] = LAW_HITS.get(law, 0) + 1
+
+
+def nps_of(p, s):
+    return p.normalize_path_separators(s)
+
+
+def abs_path(p, s):
+    """PathLaws.abs_path: the separator-normalised string starts with the separator"""
+    x = nps_of(p, s)
+    return bool(x) and x[0] == p.sep
+
+
+def dl(p, j):
+    """PathLaws.dl: the drive-letter exception of join"""
+    return bool(p.win_paths) and j[1:2] == ":"
+
+
+def pc(p, s):
+    """PathLaws.pc: components of a path"""
+    x = s.replace(p.alt_sep, p.sep) if p.alt_sep else s
+    return [c for c in x.split(p.sep) if c]
+
+
+def per_char_lower(s):
+    """the theorems model str.lower() as a per-character fold (fold_ok); True when that reading is exact for s"""
+    return len(s.lower()) == len(s) and all(a.lower() == b for a, b in zip(s, s.lower()))
+
+
+def lowk(p, l):
+    """PathLaws.lowk"""
+    return l if p.case_sensitive else [c.lower() for c in l]
+
+
 def laws_unary(p, s, twin=None):
     """-> list of (law, detail) violated by the real helpers on string s."""
     bad = []
     try:
+        x = nps_of(p, s)
+        hit("nps_idem")
+        if nps_of(p, x) != x:
+            bad.append(("nps_idem", dict(s=s)))
         for disp in (False, True):
             n = p.normalize_path(s, disp)
+            hit("normalize_idem"), hit("match_normalize"), hit("split_join"), hit("match_refl")
             if p.normalize_path(n, disp) != n:
                 bad.append(("normalize_idem", dict(s=s, disp=disp, n=n, nn=p.normalize_path(n, disp))))
-        x = p.normalize_path_separators(s)
-        if p.normalize_path_separators(x) != x:
-            bad.append(("nps_idem", dict(s=s)))
-        d, b = p.split(s)
-        if s and not p.paths_match(p.join(d, b), s):
-            bad.append(("split_join", dict(s=s, d=d, b=b, j=p.join(d, b))))
-        if not p.paths_match(s, s):
-            bad.append(("match_refl", dict(s=s)))
-        if not p.case_sensitive:
-            if not p.paths_match(s, s.lower()) and len(s.lower()) == len(s):
+            if not p.paths_match(n, s, disp):
+                bad.append(("match_normalize", dict(s=s, disp=disp, n=n)))
+            d, b = p.split(s)
+            if not p.paths_match(p.join(d, b), s, disp):
+                bad.append(("split_join", dict(s=s, d=d, b=b, j=p.join(d, b), disp=disp)))
+            if not p.paths_match(s, s, disp):
+                bad.append(("match_refl", dict(s=s, disp=disp)))
+        if p.case_sensitive:
+            # match_case_sensitive: equality is equality of components
+            pass
+        elif per_char_lower(s):
+            hit("match_case"), hit("display_keeps_leaf"), hit("display_same_class")
+            if not p.paths_match(s, s.lower()):
                 bad.append(("match_case", dict(s=s)))
-            # display mode keeps the leaf's case (compare with the case-sensitive twin)
-            if twin is not None:
-                nd = p.normalize_path(s, True)
-                if p.basename(nd) != twin.basename(twin.normalize_path(s)):
-                    bad.append(("display_keeps_leaf", dict(s=s, nd=nd)))
-                if p.normalize_path(nd) != p.normalize_path(s):
-                    bad.append(("display_same_class", dict(s=s, nd=nd)))
+            nd = p.normalize_path(s, True)
+            # display mode keeps the leaf's case (compare with the case-sensitive twin) ...
+            if twin is not None and p.basename(nd) != twin.basename(twin.normalize_path(s)):
+                bad.append(("display_keeps_leaf", dict(s=s, nd=nd)))
+            # ... and folds to the plain normal form
+            if nd.lower() != p.normalize_path(s) or p.normalize_path(nd) != p.normalize_path(s):
+                bad.append(("display_same_class", dict(s=s, nd=nd)))
     except Exception as e:  # a helper that raises breaks "laws hold for all paths"
         bad.append(("total", dict(s=s, exc=repr(e))))
     return bad
 
 
-def abs_path(p, s):
-    x = p.normalize_path_separators(s)
-    return bool(x) and x[0] == p.sep
-
-
 def laws_binary(p, f, r):
     bad = []
     try:
-        m1 = p.paths_match(f, r)
-        if m1 != p.paths_match(r, f):
-            bad.append(("match_sym", dict(a=f, b=r)))
-        if m1 != (p.normalize_path(f) == p.normalize_path(r)):
-            bad.append(("match_iff_norm", dict(a=f, b=r)))
-        # folder joined with a relative part is inside the folder, with that relative part
-        rel = r.replace(p.alt_sep, p.sep).strip(p.sep) if p.alt_sep else r.strip(p.sep)
-        if abs_path(p, f) and rel and not (p.win_paths and len(rel) > 1 and False):
+        for disp in (False, True):
+            m1 = p.paths_match(f, r, disp)
+            hit("match_sym"), hit("match_iff_norm")
+            if m1 != p.paths_match(r, f, disp):
+                bad.append(("match_sym", dict(a=f, b=r, disp=disp)))
+            if m1 != (p.normalize_path(f, disp) == p.normalize_path(r, disp)):
+                bad.append(("match_iff_norm", dict(a=f, b=r, disp=disp)))
+        if p.paths_match(f, r, True):
+            hit("match_display_plain")
+        if p.paths_match(f, r, True) and not p.paths_match(f, r, False):
+            bad.append(("match_display_plain", dict(a=f, b=r)))
+        if p.case_sensitive and p.paths_match(f, r) != (pc(p, f) == pc(p, r)):
+            bad.append(("match_case_sensitive", dict(a=f, b=r)))
+        if not p.case_sensitive and per_char_lower(f) and per_char_lower(r) and \
+                p.paths_match(f, r) != (lowk(p, pc(p, f)) == lowk(p, pc(p, r))):
+            bad.append(("match_iff_components", dict(a=f, b=r)))
+        # join_inside / join_inside_exact: a folder joined with a relative part is inside the folder,
+        # with that relative part.  Hypotheses: abs_path f, strip(nps r) non-blank, not the drive-letter form.
+        rel = nps_of(p, r).strip(p.sep)
+        if abs_path(p, f) and rel:
             j = p.join(f, r)
-            got = p.is_subpath(f, j)
-            if p.win_paths and j[1:2] == ":":
-                pass        # drive-letter form "x:..." is left without a leading separator by design
-            elif not got or not p.paths_match(got, r):
-                # win_paths: join leaves "x:..." without a leading separator; such f are not absolute
-                bad.append(("join_inside", dict(f=f, r=r, j=j, got=got)))
-            if not (p.win_paths and j[1:2] == ":") and not p.is_subpath(f, j, strict=True):
-                bad.append(("join_inside_strict", dict(f=f, r=r, j=j)))
-        # a path that only shares a name prefix with the folder is not inside it
-        ff = p.normalize_path_separators(f)
-        if ff and ff != p.sep and r and r[0] not in (p.sep, p.alt_sep) :
+            if not dl(p, j):
+                hit("join_inside"), hit("join_inside_exact")
+                for strict in (False, True):
+                    got = p.is_subpath(f, j, strict)
+                    if got != p.sep + rel:
+                        bad.append(("join_inside_exact", dict(f=f, r=r, j=j, got=got, strict=strict)))
+                    if not got or not p.paths_match(got, r) or not p.paths_match(got, r, True):
+                        bad.append(("join_inside", dict(f=f, r=r, j=j, got=got, strict=strict)))
+        # prefix_sibling: a path that only shares a name prefix with the folder is not inside it
+        ff = nps_of(p, f)
+        if ff and ff != p.sep and r and r[0] != p.sep and r[0] != (p.alt_sep or None):
             sib = ff + r
-            if p.normalize_path_separators(sib) != ff and p.is_subpath(f, sib):
-                bad.append(("prefix_sibling", dict(f=f, sib=sib, got=p.is_subpath(f, sib))))
-        # strict excludes equality only
+            hit("prefix_sibling")
+            for strict in (False, True):
+                if p.is_subpath(f, sib, strict):
+                    bad.append(("prefix_sibling", dict(f=f, sib=sib, got=p.is_subpath(f, sib, strict))))
+        # subpath_strict / subpath_nonstrict: strict excludes equality only
         g = p.is_subpath(f, r)
         gs = p.is_subpath(f, r, strict=True)
+        if gs:
+            hit("subpath_strict")
+        if g:
+            hit("subpath_nonstrict")
         if gs and gs != g:
-            bad.append(("strict_consistent", dict(f=f, t=r)))
+            bad.append(("subpath_strict", dict(f=f, t=r)))
+        if g and not gs and g != p.sep:
+            bad.append(("subpath_nonstrict", dict(f=f, t=r, g=g)))
+        if g == "":
+            bad.append(("subpath_rel_nonempty", dict(f=f, t=r)))
+        # subpath_components: inside = components of the folder followed by those of the relative part
+        if g and (p.case_sensitive or (per_char_lower(f) and per_char_lower(r))):
+            hit("subpath_components")
+            if lowk(p, pc(p, r)) != lowk(p, pc(p, f)) + lowk(p, pc(p, g)):
+                bad.append(("subpath_components", dict(f=f, t=r, g=g)))
     except Exception as e:
         bad.append(("total", dict(f=f, r=r, exc=repr(e))))
     return bad
@@ -163,47 +233,97 @@ def laws_ternary(p, path, f, t):
             out = p.replace_path(path, f, t)
         except ValueError:
             out = None
+        hit("replace_iff_sub")
         if bool(rel) != (out is not None):
             bad.append(("replace_iff_sub", dict(path=path, f=f, t=t)))
         if rel and out is not None:
-            exp = p.normalize_path_separators(t) + (rel if rel != p.sep else "")
+            exp = nps_of(p, t) + (rel if rel != p.sep else "")
+            hit("replace_moves_rel")
             if out != exp:
                 bad.append(("replace_moves_rel", dict(path=path, f=f, t=t, out=out, exp=exp)))
-            if abs_path(p, t) and rel != p.sep and p.normalize_path_separators(t) != p.sep:
+            if rel != p.sep and t:
                 back = p.is_subpath(t, out)
-                if back != rel:
+                hit("replace_lands_inside_equiv")
+                if nps_of(p, t) != p.sep:
+                    hit("replace_lands_inside")
+                # replace_lands_inside: exactly the same relative part unless the new folder is the root
+                if nps_of(p, t) != p.sep and back != rel:
                     bad.append(("replace_lands_inside", dict(path=path, f=f, t=t, out=out, back=back, rel=rel)))
+                # replace_lands_inside_equiv: always inside, with the same components
+                if not back or pc(p, back) != pc(p, rel):
+                    bad.append(("replace_lands_inside_equiv", dict(path=path, f=f, t=t, out=out, back=back, rel=rel)))
         # transitivity of paths_match
-        if p.paths_match(path, f) and p.paths_match(f, t) and not p.paths_match(path, t):
-            bad.append(("match_trans", dict(a=path, b=f, c=t)))
+        for disp in (False, True):
+            if p.paths_match(path, f, disp) and p.paths_match(f, t, disp):
+                hit("match_trans")
+            if p.paths_match(path, f, disp) and p.paths_match(f, t, disp) and not p.paths_match(path, t, disp):
+                bad.append(("match_trans", dict(a=path, b=f, c=t, disp=disp)))
     except Exception as e:
         bad.append(("total", dict(path=path, f=f, t=t, exc=repr(e))))
     return bad
 
 
 def laws_translate(provs, roots, path):
-    """round trip for everything inside root0 (path is on side 0); nothing for everything outside"""
+    """translate_outside / _inside / _lands_inside / _roundtrip, in both directions:
+    path is taken as a path of side `frm`, translated to side `to` and back."""
     from cloudsync.cs import CloudSync
     fake = types.SimpleNamespace(roots=roots, providers=provs)
     bad = []
-    try:
-        inside = provs[0].is_subpath(roots[0], path)
-        there = CloudSync.translate(fake, 1, path)
-        if not inside:
-            if there is not None:
-                bad.append(("translate_outside", dict(path=path, there=there)))
-        else:
+    for to in (1, 0):
+        frm = 1 - to
+        try:
+            inside = provs[frm].is_subpath(roots[frm], path)
+            there = CloudSync.translate(fake, to, path)
+            if not inside:
+                hit("translate_outside")
+                if there is not None:
+                    bad.append(("translate_outside", dict(path=path, to=to, there=there)))
+                continue
             if there is None:
-                bad.append(("translate_inside_some", dict(path=path)))
-            else:
-                if not provs[1].is_subpath(roots[1], there):
-                    bad.append(("translate_lands_inside", dict(path=path, there=there)))
-                back = CloudSync.translate(fake, 0, there)
-                if back is None or not provs[0].paths_match(back, path):
-                    bad.append(("translate_roundtrip", dict(path=path, there=there, back=back)))
-    except Exception as e:
-        bad.append(("total", dict(path=path, exc=repr(e))))
+                bad.append(("translate_inside", dict(path=path, to=to)))
+                continue
+            hit("translate_inside")
+            if there != provs[to].join(roots[to], inside):
+                bad.append(("translate_inside", dict(path=path, to=to, there=there)))
+            if abs_path(provs[to], roots[to]) and not dl(provs[to], there):
+                hit("translate_lands_inside")
+                if not provs[to].is_subpath(roots[to], there):
+                    bad.append(("translate_lands_inside", dict(path=path, to=to, there=there)))
+            # hypotheses of translate_roundtrip: same separators, absolute roots, no win_paths
+            if (abs_path(provs[0], roots[0]) and abs_path(provs[1], roots[1])
+                    and not provs[0].win_paths and not provs[1].win_paths
+                    and provs[0].sep == provs[1].sep and provs[0].alt_sep == provs[1].alt_sep):
+                back = CloudSync.translate(fake, frm, there)
+                hit("translate_roundtrip")
+                if back is None or not provs[frm].paths_match(back, path):
+                    bad.append(("translate_roundtrip", dict(path=path, to=to, there=there, back=back)))
+        except Exception as e:
+            bad.append(("total", dict(path=path, to=to, exc=repr(e))))
     return bad
+
+
+def fold_sweep():
+    """fold_ok against str.lower() for every code point: per-character, idempotent, and exactly the
+    separators / ':' map to themselves.  -> (checked, exceptions, failures)"""
+    special = ["/", "\\", ":"]
+    exceptions, failures, checked = [], [], 0
+    for c in range(0x110000):
+        if 0xD800 <= c <= 0xDFFF:
+            continue
+        ch = chr(c)
+        lo = ch.lower()
+        checked += 1
+        if len(lo) != 1:
+            exceptions.append(c)        # not a per-character fold: outside the theorems' hypothesis
+            if any(x in lo for x in special):
+                failures.append((c, "multi-character lower() contains a separator"))
+            continue
+        if lo.lower() != lo:
+            failures.append((c, "lower not idempotent"))
+        for x in special:
+            if (lo == x) != (ch == x):
+                failures.append((c, "lower maps to/from %r" % x))
+    return checked, exceptions, failures
 
 
 def strings_upto(n, alphabet=ALPHABET):
@@ -235,6 +355,7 @@ def random_path(rng, p):
 def run(ctx):
     envfix.install()
     g = ctx.coq_gate("PropC13")
+    LAW_HITS.clear()
     dist = fw.Distinct()
     stats = dict(unary=0, binary=0, ternary=0, translate=0, long=0, laws_checked=0, fold_alphabet_ok=0)
     samples = []
@@ -254,6 +375,14 @@ def run(ctx):
                                   dict(kind="fold", char=c), no_input=True, theorem="fold_std hypothesis")
                 else:
                     stats["fold_alphabet_ok"] += 1
+        # fold_ok against str.lower() on every code point (the hypothesis of the case-insensitive theorems)
+        checked, multichar, fails = fold_sweep()
+        stats["fold_sweep_code_points"] = checked
+        stats["fold_sweep_not_per_character"] = ["U+%04X" % c for c in multichar]
+        stats["fold_sweep_failures"] = len(fails)
+        for c, why in fails[:5]:
+            ctx.violation("str.lower() breaks the fold hypothesis of the C13 theorems at U+%04X: %s" % (c, why),
+                          dict(kind="fold_ok", code_point=c, why=why), no_input=True, theorem="fold_ok hypothesis")
         mismatches = []
 
         def compare(reqs, impl_results, label):
@@ -369,6 +498,7 @@ def run(ctx):
                           no_input=not any(v for v in ctx.violations if not v[2]),
                           theorem="correspondence PathModel.run vs cloudsync.provider helpers")
         stats["mismatches"] = len(mismatches)
+        stats["law_hypotheses_held"] = dict(sorted(LAW_HITS.items()))
     cov = ctx.coverage
     cov["evaluations"] = dist.total
     cov["distinct_nontrivial"] = dist.nontrivial
@@ -383,9 +513,12 @@ def run(ctx):
     cov["traces_validated_against_impl"] = stats.get("model_calls", 0)
     tb = ["Coq 8.16.1 kernel (coqc); vm_compute not needed by the C13 theorems; no native_compute",
           "axioms per theorem as printed by Print Assumptions: " + (", ".join(cov.get("axioms_used", [])) or "none (closed under the global context)"),
-          "Section hypotheses of the theorems about the per-character case fold (idempotent, fixes and never produces a separator); "
-          "checked against str.lower() on every character the streams use",
+          "hypothesis fold_ok of the case-insensitive theorems (per-character case fold: idempotent; exactly the separator, the alt "
+          "separator and ':' map to themselves); checked against str.lower() for every Unicode code point in every run "
+          "(exceptions, i.e. characters whose lower() is not one character, are listed in streams.fold_sweep_not_per_character); "
+          "the executable model's fold_std is proved to satisfy fold_ok (fold_std_ok) and compared with str.lower() on the stream alphabet",
           "extraction: ExtrOcamlBasic only (Extract Inductive bool/option/unit/prod/list/sumbool/sumor); OCaml 4.13.1; coq/ocaml/driver.ml",
           "correspondence harness harness/checks/c13.py (generators, canonicalisation); CPython str semantics",
-          "modelled, not verified: str.lower() beyond per-character folds (U+0130, final sigma), Unicode normalisation forms; nested list arguments of join()"]
+          "modelled, not verified: str.lower() beyond per-character folds (U+0130, context-dependent final sigma), Unicode normalisation forms; "
+          "nested list arguments of join(); join() of more than the argument shapes used by the theorems is covered by pc_join only up to components"]
     return ctx.finish(tb)
